@@ -5,6 +5,9 @@ PATCH="$1"; shift
 cd /repo || exit 2
 if [ -n "$(git status --porcelain --untracked-files=no)" ]; then echo "repo not clean"; exit 2; fi
 git apply "$PATCH" || { echo "patch does not apply"; exit 2; }
+# evidence written while a seeded change is applied must not replace the real evidence
+EVBAK=$(mktemp -d /tmp/evbak.XXXXXX); cp -a /verif/evidence/. "$EVBAK"/
+FAILBAK=$(ls /verif/failures 2>/dev/null)
 for p in "$@"; do
   s=$(date +%s)
   out=$(cd /verif && VERIF_WATCHDOG_S=900 ./check $p --tier quick 2>&1); rc=$?
@@ -19,3 +22,5 @@ for p in "$@"; do
   if [ $rc -ge 2 ]; then echo "$out" | tail -5; fi
 done
 git -C /repo checkout -- .
+cp -a "$EVBAK"/. /verif/evidence/; rm -rf "$EVBAK"
+for f in $(ls /verif/failures 2>/dev/null); do echo "$FAILBAK" | grep -qx "$f" || rm -f "/verif/failures/$f"; done
